@@ -221,6 +221,12 @@ func (r *Report) Finish(proofFile string) int {
 	if pi.Level == "" {
 		pi.Level = "proof"
 	}
+	if pi.Assumptions == nil {
+		pi.Assumptions = []string{}
+	}
+	if pi.TrustedBase == nil {
+		pi.TrustedBase = []string{}
+	}
 	if pi.ProofFailure != "" {
 		r.Violate("proof step failed: "+pi.ProofFailure, map[string]any{"theorem_or_check": pi.ProofFailure}, true)
 	}
